@@ -16,6 +16,7 @@
    Tie to the code: tools/harness/c08model.py runs `append_session` / `append_position` (through the
    dispatcher below) and the real session on the same header graphs and compares the graphs. *)
 From P7 Require Import Prelude PyPrims Number Header HeaderCodec.
+From P7 Require Spec.
 From P7 Require Assign.
 Open Scope Z_scope.
 
@@ -273,5 +274,9 @@ Definition append_dispatch (fn : Z) (a : tree) : tree :=
   | 464 => t_res t_header (open_for_append (of_TI (tnth a 0)) (of_Zs (tnth a 1)) (of_bytes (tnth a 2)))
   (* FN 466 append_base_ok : header -> bool *)
   | 466 => t_bool (base_ok (of_header a))
+  (* FN 467 spec_times : (lim bytes) -> res (list (ctime atime))  -- creation / access time of every entry as the
+     strict specification reader (Spec.v s_header) reads them; used by the reference reader tools/ref *)
+  | 467 => t_res (t_list (fun e => TL [t_opt TI (Spec.flat_opt (e_ctime e)); t_opt TI (Spec.flat_opt (e_atime e))]))
+                 (do sh <- Spec.s_header (of_TI (tnth a 0)) (of_bytes (tnth a 1)); Ok (Spec.sh_files sh))
   | _ => TL [TI (-2)]
   end.
